@@ -23,7 +23,7 @@ struct World {
 
 fn world() -> World {
     let tables = sut::make_tables(&format!("{}\n{}", JDEF, JDEF_U)).expect("defs");
-    let joined = "{\"k\":\"a\",\"y\":1}\n{\"k\":\"a\",\"y\":2}\nnoise\n{\"k\":\"b\",\"y\":3}\n{\"k\":\"a\",\"y\":4}\n{\"y\":9}\n";
+    let joined = "{\"k\":\"a\",\"y\":1,\"w\":\"p\"}\n{\"k\":\"a\",\"y\":2,\"w\":\"p\"}\nnoise\n{\"k\":\"b\",\"y\":3,\"w\":\"q\"}\n{\"k\":\"a\",\"y\":4,\"w\":\"q\"}\n{\"y\":9}\n";
     let tmp = sut::TempFiles::new(&[joined.as_bytes()]);
     let jp = tmp.paths[0].clone();
     let mut stmts: Vec<(String, &'static str)> = Vec::new();
@@ -34,7 +34,10 @@ fn world() -> World {
     stmts.push((format!("SELECT t.k, v, y FROM t INNER JOIN u::'{}' ON t.k = u.k", jp), "join"));
     stmts.push((format!("SELECT DISTINCT t.k, y FROM t INNER JOIN u::'{}' ON t.k = u.k", jp), "join"));
     stmts.push((format!("SELECT t.k, y FROM t OUTER JOIN u::'{}' ON t.k = u.k WHERE v > 1", jp), "join"));
-    for s in ["SELECT k, COUNT(*) FROM t GROUP BY k", "SELECT COUNT(*), SUM(v) FROM t", "SELECT k, SUM(v) FROM t GROUP BY k HAVING COUNT(*) > 0", "SELECT v, COUNT(*) FROM t GROUP BY v"] {
+    stmts.push((format!("SELECT t.k, y FROM t INNER JOIN u::'{}' ON t.k = u.k WHERE y > 1", jp), "join"));
+    stmts.push((format!("SELECT DISTINCT t.k, v FROM t INNER JOIN u::'{}' ON t.k = u.k", jp), "join"));
+    stmts.push((format!("SELECT DISTINCT w FROM t INNER JOIN u::'{}' ON t.k = u.k WHERE y != 2", jp), "join"));
+    for s in ["SELECT k, SUM(v) FROM t GROUP BY k HAVING COUNT(*) > 1", "SELECT k, COUNT(*) FROM t GROUP BY k HAVING MAX(v) < 3", "SELECT DISTINCT COUNT(*) FROM t GROUP BY k", "SELECT DISTINCT MAX(v) FROM t GROUP BY k HAVING k IS NOT NULL", "SELECT k, COUNT(*) FROM t GROUP BY k", "SELECT COUNT(*), SUM(v) FROM t", "SELECT k, SUM(v) FROM t GROUP BY k HAVING COUNT(*) > 0", "SELECT v, COUNT(*) FROM t GROUP BY v"] {
         stmts.push((s.to_string(), "aggregate"));
     }
     stmts.push((format!("SELECT t.k, COUNT(*), SUM(y) FROM t INNER JOIN u::'{}' ON t.k = u.k GROUP BY t.k", jp), "aggregate"));
